@@ -47,6 +47,8 @@ func checkC10(r *core.Run) {
 	ruleLoopVarAddr(r, "T-loopvar", "sao/keeper.msgServer.", "did/keeper.msgServer.")
 	r.Rule("G-pay: UpdatePaymentAddress makes an account the payment address of a sid DID only if that account is bound to that very DID (it signed a binding proof for it) and the submitter is bound to it too; of a key DID only the address itself, once — otherwise a stranger's account is charged for orders it never signed")
 	ruleSigOwner(r)
+	r.Rule("T-decode-fresh: every record decoded inside a loop is decoded into a variable that is fresh per iteration (Unmarshal appends to repeated fields: with a hoisted variable a node inherits the TxAddresses other nodes declared, and the handlers trust that list)")
+	ruleDecodeFresh(r, "T-decode-fresh")
 	r.Assume(aDeps)
 	r.Assume(aCG)
 
